@@ -2058,6 +2058,12 @@ int EGLPNUM_TYPENAME_ILLlib_chgsense (
 		}
 	}
 
+	if (qslp->rA)
+	{															/* the coefficient of a logical changes: the row copy must be rebuilt */
+		EGLPNUM_TYPENAME_ILLlp_rows_clear (qslp->rA);
+		ILL_IFFREE(qslp->rA);
+	}
+
 	for (i = 0; i < num; i++)
 	{
 		j = qslp->rowmap[rowlist[i]];
